@@ -237,6 +237,11 @@ let handle (fields : string list) : string =
   | [ "fs"; a; k ] ->
     let n = nat_of_int (int_of_string k) in
     string_of_q (fs_pmf (q_of_string a) n) ^ " " ^ string_of_q (fs_cdf (q_of_string a) n)
+  | [ "rgraph"; elems ] ->
+    let els = List.map gelem_of_sexp (lst (parse_sexp elems)) in
+    let kn = function KProb -> "prob" | KTermP -> "term_prob" | KTransP -> "trans_prob" in
+    String.concat ";" (List.map (fun e -> Printf.sprintf "%d.%d>%d.%d:%s:%s" (int_of_nat (fst e.e_src)) (int_of_nat (snd e.e_src))
+                                     (int_of_nat (fst e.e_dst)) (int_of_nat (snd e.e_dst)) (kn e.e_kind) (string_of_q e.e_p)) (reaction_graph els))
   | [ "float"; s ] ->
     (match py_float (explode (unhex s)) with None -> "ERR" | Some x -> string_of_num x ^ " " ^ implode (fprint x))
   | [ "repr"; s ] -> py_repr (float_of_string s)
